@@ -57,6 +57,9 @@ Proof.
   - destruct (fail_edge s) as [->|[[H1 ->]|[H1 ->]]]; [apply reach_refl | rewrite H1; reflexivity | rewrite H1; reflexivity].
 Qed.
 
+Lemma Rst_hist H s : Rst s (with_hist H s).
+Proof. unfold Rst. simpl. apply reach_refl. Qed.
+
 Lemma Rst_log o s : Rst s (logo o s).
 Proof. unfold Rst. simpl. apply reach_refl. Qed.
 
@@ -70,13 +73,13 @@ Proof. apply reach_refl. Qed.
 Theorem send_status_path m ev s : Rst s (fst (sync_send m ev s)).
 Proof.
   unfold sync_send, sync_send_with. destruct (s_status s) eqn:E; simpl; try apply Rst_refl.
-  eapply (p_trans Rst Rst_prims); [apply Rst_queue|]. apply (f_drain Rst Rst_prims Rst_queue Rst_log).
+  eapply (p_trans Rst Rst_prims); [apply Rst_queue|]. apply (f_drain Rst Rst_prims Rst_hist Rst_queue Rst_log).
 Qed.
 
 Theorem send_events_status_path m evs s : Rst s (fst (sync_send_events m evs s)).
 Proof.
   unfold sync_send_events. destruct (s_status s) eqn:E; simpl; try apply Rst_refl.
-  eapply (p_trans Rst Rst_prims); [apply Rst_queue|]. apply (f_drain Rst Rst_prims Rst_queue Rst_log).
+  eapply (p_trans Rst Rst_prims); [apply Rst_queue|]. apply (f_drain Rst Rst_prims Rst_hist Rst_queue Rst_log).
 Qed.
 
 Lemma Rst_start s : s_status s = Uninit -> Rst s (logo OStarted (with_status Running None s)).
@@ -91,17 +94,17 @@ Proof.
   set (rest := (enter Sync true m [0] None ;; _)).
   assert (Hr : preserves Rst rest).
   { unfold rest. apply (pres_bind Rst (p_trans Rst Rst_prims)); [apply (f_enter Rst Rst_prims)|].
-    apply (pres_bind Rst (p_trans Rst Rst_prims)); [apply (f_settle Rst Rst_prims)|].
-    apply (pres_bind Rst (p_trans Rst Rst_prims)); [apply (f_drain Rst Rst_prims Rst_queue Rst_log)|].
+    apply (pres_bind Rst (p_trans Rst Rst_prims)); [apply (f_settle Rst Rst_prims Rst_hist)|].
+    apply (pres_bind Rst (p_trans Rst Rst_prims)); [apply (f_drain Rst Rst_prims Rst_hist Rst_queue Rst_log)|].
     apply pres_lift. intros s'. apply Rst_log. }
   eapply (p_trans Rst Rst_prims); [exact H1 | apply Hr].
 Qed.
 
 Theorem async_step_status_path m ev s : Rst s (async_step m ev s).
-Proof. apply (f_async_step Rst Rst_prims Rst_log). Qed.
+Proof. apply (f_async_step Rst Rst_prims Rst_hist Rst_log). Qed.
 
 Theorem async_loop_status_path fuel m s : Rst s (fst (async_loop fuel m s)).
-Proof. apply (f_async_loop Rst Rst_prims Rst_queue Rst_log). Qed.
+Proof. apply (f_async_loop Rst Rst_prims Rst_hist Rst_queue Rst_log). Qed.
 
 Theorem async_start_status_path m s : Rst s (fst (async_start m s)).
 Proof.
@@ -110,7 +113,7 @@ Proof.
   assert (Ha : forall s0, s_status s0 = Uninit -> Rst s0 (fst (a s0))).
   { intros s0 E0. unfold a. unfold bind at 1. unfold lift at 1. cbn beta.
     eapply (p_trans Rst Rst_prims); [apply Rst_start; exact E0|].
-    apply (pres_bind Rst (p_trans Rst Rst_prims)); [apply (f_enter Rst Rst_prims) | apply (f_settle Rst Rst_prims)]. }
+    apply (pres_bind Rst (p_trans Rst Rst_prims)); [apply (f_enter Rst Rst_prims) | apply (f_settle Rst Rst_prims Rst_hist)]. }
   specialize (Ha s E). destruct (a s) as [s' [e|]]; simpl in *; [|exact Ha].
   unfold Rst in *. simpl. rewrite E in *. destruct (s_status s'); reflexivity.
 Qed.
